@@ -9,6 +9,7 @@ k = json.load(open('/verif/known_findings.json'))
 def sh(c, **kw): return subprocess.run(c, shell=True, capture_output=True, text=True, **kw)
 for e in k:
     if e.get('status') != 'fixed': continue
+    if len(sys.argv) > 1 and e['id'] not in sys.argv[1:]: continue
     pid, cid, commit = e['property'], e['id'], e['commit']
     r = sh(f"cd /repo && git show {commit} | git apply -R")
     if r.returncode != 0:
